@@ -54,7 +54,8 @@
 From Coq Require Import String List NArith.
 From ApiFu Require Import Base.Sexp Feat.FeaturesModel Feat.FeaturesSpec Feat.FeaturesProofs Feat.FeaturesReach
   Feat.FeaturesDocModel Feat.FeaturesDocProofs Feat.FeaturesFuelProofs.
-From ApiFu Require Vld.Ast Vld.TypeInfoModel Vld.ValidatorModel Feat.FeaturesVld.
+From ApiFu Require Vld.Ast Vld.Inspect Vld.TypeInfoModel Vld.ValidatorModel Vld.ProofsCommon Vld.Witness Feat.FeaturesVld Feat.FeaturesVldRules
+  Exe.ExecData Exe.ExecModel Feat.FeaturesExe.
 Import ListNotations.
 Open Scope string_scope.
 Open Scope list_scope.
@@ -180,11 +181,16 @@ Proof. exact sdoc_fuel_suffices. Qed.
 
 (** a subscription served over a WebSocket connection (subscribe once, then every event of the
     source stream executes the selection set on the subscription type), same transcription, same
-    limits; no discipline theorem for this program (a forged pointer would be reported by the check) *)
+    limits *)
 Theorem C13_feature_subscription_eq_partial : forall S F G fuel events d,
   schema_ok S = true -> subset F G = true ->
   run fixed S F [] (ssub_prog fuel events d) = run fixed (erase S F) G [] (ssub_prog fuel events d).
 Proof. exact subscription_eq. Qed.
+
+(** the subscription program is disciplined as well *)
+Theorem C13_subscription_consumer_disciplined : forall fx S F fuel events d,
+  exists r, snd (run fx S F [] (ssub_prog fuel events d)) = Done r.
+Proof. exact ssub_prog_disciplined. Qed.
 
 (** request feature-set plumbing as the code does it ([ws_effective], FeaturesSpec.v): a WebSocket
     connection takes Config.Features(ctx) once, at connection_init; afterwards no change of what
@@ -196,28 +202,30 @@ Theorem C13_ws_features_fixed_at_init : forall h env F,
   forall o, In o (ws_effective env (Some F) h) -> o = Some F.
 Proof. exact ws_frozen. Qed.
 
-(** ** composition with C04's validator model (coq/Vld, imported read-only; Feat/FeaturesVld.v)
+(** ** composition with C04's validator model (coq/Vld, imported read-only; Feat/FeaturesVld.v,
+    Feat/FeaturesVldRules.v)
 
-    C04's [validate_model q pi S F D] takes the feature set and does its own gating.  Full statement
-    wanted, for [vok S] (the feature rules of schema.New in C04's vocabulary) and F ⊆ G:
-        validate_model q pi S F D = validate_model q pi (verase S F) G D     for every document D.
-    Proved from C04's definitions, for every document (arguments, variables, directives and value
-    literals included):
-      - NewTypeInfo fills every slot alike ([C13_C04_type_info_eq]);
-      - the rule groups fragment declarations, arguments, directives (document and operations do not
-        look at the schema) answer alike on any document ([C13_C04_small_rule_groups]);
-      - the rule group variables answers alike on the document NewTypeInfo annotated
-        ([C13_C04_variables_rule]).
-    Open, gap named:
-      - fragment spreads: FALSE on C04's model as it stands — its [possible_types] transcribes
-        getPossibleTypes without the feature filter of the repaired code
-        ([C13_C04_spread_rule_refuted_as_modelled]: the C13 witness in C04's encoding); needs the
-        filter [t_req ⊆ F] over [s_impls] in Vld/ValidatorModel.v, then closes like QPossibleV here;
-      - fields (incl. merging), values: follow from [C13_C04_type_info_eq] once it is
-        shown that every slot of the annotated document (scope, field definition, expected type)
-        holds a type visible to F — the invariant the lemmas of FeaturesVld.v carry
-        through NewTypeInfo ([vis_scope], [vis_field], [vis_osty]) but that is not yet stated on
-        the output document. *)
+    C04's [validate_model q pi S F D] takes the feature set and does its own gating.  For [vok S]
+    (the feature rules of schema.New in C04's vocabulary; evaluated by the check on every schema
+    the real schema.New accepted), F ⊆ G, a map-iteration order [pi] that is a permutation and the
+    repaired validator ([q_impl_features q = true]: getPossibleTypes lists only implementations the
+    request can see — on in C04's [repaired]), proved from C04's definitions for EVERY document
+    (arguments, variables, directives, value literals, equal response keys and the field-merging
+    rule included):
+
+        validate_model q pi (verase S F) G D = validate_model q pi S F D        ([C13_C04_validate_eq])
+
+    For the pinned getPossibleTypes (filter off) the equation holds exactly as far as no
+    implementation listed for a visible interface is gated ([C13_C04_validate_eq_no_gated_impls])
+    and fails otherwise ([C13_C04_spread_rule_refuted_before_fix]: the C13 witness of defect #30 in
+    C04's encoding; [C13_C04_spread_rule_after_fix]: the same instance with the repair).
+    The parts, each a theorem of its own:
+      - [C13_C04_type_info_eq]: NewTypeInfo fills every slot alike;
+      - [C13_C04_slots_visible]: every slot of the annotated document (selection-set scope, field
+        definition, expected type of a value, variable type) holds only types visible to F;
+      - [C13_C04_small_rule_groups], [C13_C04_variables_rule], [C13_C04_fields_rule] (both passes,
+        the second being the field-merging rule), [C13_C04_values_rule]: the rule groups answer
+        alike, for every quirk setting. *)
 Theorem C13_C04_type_info_eq : forall (S : Vld.Ast.schema) (F G : Vld.Ast.features) q (D : Vld.Ast.document),
   FeaturesVld.vok S = true -> Vld.Ast.subset F G = true ->
   TypeInfoModel.type_info q (FeaturesVld.verase S F) G D = TypeInfoModel.type_info q S F D.
@@ -239,17 +247,87 @@ Theorem C13_C04_variables_rule : forall (S : Vld.Ast.schema) (F G : Vld.Ast.feat
   ValidatorModel.rule_variables pi (FeaturesVld.verase S F) A = ValidatorModel.rule_variables pi S A.
 Proof. exact (fun S F G q pi D A Hok HFG => FeaturesVld.rule_variables_erase S F G Hok HFG q pi D A). Qed.
 
-Theorem C13_C04_spread_rule_refuted_as_modelled :
+Theorem C13_C04_slots_visible : forall (S : Vld.Ast.schema) (F G : Vld.Ast.features) q (D A : Vld.Ast.document),
+  FeaturesVld.vok S = true -> Vld.Ast.subset F G = true ->
+  TypeInfoModel.type_info q S F D = Some A ->
+  forall n, In n (Inspect.tree_nodes (Inspect.tree_doc A)) -> FeaturesVldRules.wa_node S F n.
+Proof. exact (fun S F G q D A Hok HFG TI => FeaturesVldRules.type_info_nodes_ok S F G Hok HFG q D A TI). Qed.
+
+Theorem C13_C04_fields_rule : forall (S : Vld.Ast.schema) (F G : Vld.Ast.features) pi q (D A : Vld.Ast.document),
+  FeaturesVld.vok S = true -> Vld.Ast.subset F G = true -> ProofsCommon.order_ok pi ->
+  TypeInfoModel.type_info (ValidatorModel.q_unwrap_obj q) S F D = Some A ->
+  ValidatorModel.rule_fields q pi (FeaturesVld.verase S F) G A = ValidatorModel.rule_fields q pi S F A.
+Proof.
+  exact (fun S F G pi q D A Hok HFG Hpi TI =>
+           FeaturesVldRules.rule_fields_erase S F G Hok HFG pi Hpi q A
+             (FeaturesVldRules.type_info_nodes_ok S F G Hok HFG _ D A TI)).
+Qed.
+
+Theorem C13_C04_values_rule : forall (S : Vld.Ast.schema) (F G : Vld.Ast.features) pi q (D A : Vld.Ast.document),
+  FeaturesVld.vok S = true -> Vld.Ast.subset F G = true ->
+  TypeInfoModel.type_info (ValidatorModel.q_unwrap_obj q) S F D = Some A ->
+  ValidatorModel.rule_values q pi (FeaturesVld.verase S F) A = ValidatorModel.rule_values q pi S A.
+Proof.
+  exact (fun S F G pi q D A Hok HFG TI =>
+           FeaturesVldRules.rule_values_erase S F Hok pi q A
+             (FeaturesVldRules.type_info_nodes_ok S F G Hok HFG _ D A TI)).
+Qed.
+
+Theorem C13_C04_validate_eq : forall (S : Vld.Ast.schema) (F G : Vld.Ast.features) pi q (D : Vld.Ast.document),
+  FeaturesVld.vok S = true -> Vld.Ast.subset F G = true -> ProofsCommon.order_ok pi ->
+  ValidatorModel.q_impl_features q = true ->
+  ValidatorModel.validate_model q pi (FeaturesVld.verase S F) G D = ValidatorModel.validate_model q pi S F D.
+Proof. exact (fun S F G pi q D => FeaturesVldRules.validate_eq_repaired S F G pi q D). Qed.
+
+Theorem C13_C04_validate_eq_no_gated_impls : forall (S : Vld.Ast.schema) (F G : Vld.Ast.features) pi q (D : Vld.Ast.document),
+  FeaturesVld.vok S = true -> Vld.Ast.subset F G = true -> ProofsCommon.order_ok pi ->
+  ValidatorModel.q_impl_features q = false -> FeaturesVldRules.impls_visible S F ->
+  ValidatorModel.validate_model q pi (FeaturesVld.verase S F) G D = ValidatorModel.validate_model q pi S F D.
+Proof. exact (fun S F G pi q D => FeaturesVldRules.validate_eq_no_gated_impls S F G pi q D). Qed.
+
+Theorem C13_C04_spread_rule_refuted_before_fix :
   FeaturesVld.vok FeaturesVld.VW = true /\ Vld.Ast.subset nil (cons FeaturesVld.vfa nil) = true /\
-  ValidatorModel.validate_model ValidatorModel.repaired ValidatorModel.id_order FeaturesVld.VW nil FeaturesVld.VD
+  ValidatorModel.q_impl_features Witness.before_fix_30 = false /\
+  ValidatorModel.validate_model Witness.before_fix_30 ValidatorModel.id_order FeaturesVld.VW nil FeaturesVld.VD
   = Vld.Ast.Done nil /\
-  ValidatorModel.validate_model ValidatorModel.repaired ValidatorModel.id_order
+  ValidatorModel.validate_model Witness.before_fix_30 ValidatorModel.id_order
       (FeaturesVld.verase FeaturesVld.VW nil) (cons FeaturesVld.vfa nil) FeaturesVld.VD
   = Vld.Ast.Done (cons {| Vld.Ast.e_locs := cons (FeaturesVld.vp 1%N 14%N) nil; Vld.Ast.e_sec := false;
-                                 Vld.Ast.e_kind := Vld.Ast.ESpreadImpossible |} nil) /\
+                          Vld.Ast.e_kind := Vld.Ast.ESpreadImpossible |} nil) /\
   TypeInfoModel.type_info true FeaturesVld.VW nil FeaturesVld.VD
   = TypeInfoModel.type_info true (FeaturesVld.verase FeaturesVld.VW nil) (cons FeaturesVld.vfa nil) FeaturesVld.VD.
-Proof. exact FeaturesVld.spreads_refuted. Qed.
+Proof. exact FeaturesVld.spreads_refuted_before_fix. Qed.
+
+Theorem C13_C04_spread_rule_after_fix :
+  ValidatorModel.validate_model ValidatorModel.repaired ValidatorModel.id_order FeaturesVld.VW nil FeaturesVld.VD
+  = Vld.Ast.Done (cons {| Vld.Ast.e_locs := cons (FeaturesVld.vp 1%N 14%N) nil; Vld.Ast.e_sec := false;
+                          Vld.Ast.e_kind := Vld.Ast.ESpreadImpossible |} nil) /\
+  ValidatorModel.validate_model ValidatorModel.repaired ValidatorModel.id_order
+      (FeaturesVld.verase FeaturesVld.VW nil) (cons FeaturesVld.vfa nil) FeaturesVld.VD
+  = ValidatorModel.validate_model ValidatorModel.repaired ValidatorModel.id_order FeaturesVld.VW nil FeaturesVld.VD /\
+  ValidatorModel.validate_model ValidatorModel.repaired ValidatorModel.id_order FeaturesVld.VW (cons FeaturesVld.vfa nil) FeaturesVld.VD
+  = Vld.Ast.Done nil.
+Proof. exact FeaturesVld.spreads_after_fix. Qed.
+
+(** ** the bridge to C01's executor model (coq/Exe, imported read-only; Feat/FeaturesExe.v)
+
+    C01's model has no feature parameter; what the executor does with a request's feature set is
+    handed to it as a schema: [FeaturesExe.view leaf S F], the types, fields, implemented interfaces,
+    union members and root types the request may see ([leaf]: how scalars and enums are presented;
+    arbitrary).  The F-view of S is literally the G-view of the erased schema, so C01's whole request
+    pipeline returns the same on both.  Not established here: that the real executor on (S, F)
+    behaves as C01's model on the F-view — C01's check runs without feature sets; that tie is
+    C13's own correspondence on chains, selection sets and subscriptions. *)
+Theorem C13_C01_view_eq : forall leaf S F G,
+  schema_ok S = true -> subset F G = true ->
+  FeaturesExe.view leaf (erase S F) G = FeaturesExe.view leaf S F.
+Proof. exact FeaturesExe.view_erase. Qed.
+
+Theorem C13_C01_run_request_eq : forall leaf S F G M R opname En fuel W,
+  schema_ok S = true -> subset F G = true ->
+  ExecModel.run_request M (FeaturesExe.view leaf (erase S F) G) R opname En fuel W
+  = ExecModel.run_request M (FeaturesExe.view leaf S F) R opname En fuel W.
+Proof. exact (fun leaf S F G M R opname En fuel W Hok HFG => FeaturesExe.exe_view_run_request leaf S F G Hok HFG M R opname En fuel W). Qed.
 
 (** the reference exists: the reduced schema is accepted by schema.New *)
 Theorem C13_erase_schema_ok : forall S F, schema_ok S = true -> schema_ok (erase S F) = true.
@@ -382,11 +460,20 @@ Print Assumptions C13_feature_exec_eq_sets_partial.
 Print Assumptions C13_set_consumers_disciplined.
 Print Assumptions C13_selection_set_fuel_suffices.
 Print Assumptions C13_feature_subscription_eq_partial.
+Print Assumptions C13_subscription_consumer_disciplined.
 Print Assumptions C13_ws_features_fixed_at_init.
 Print Assumptions C13_C04_type_info_eq.
 Print Assumptions C13_C04_small_rule_groups.
 Print Assumptions C13_C04_variables_rule.
-Print Assumptions C13_C04_spread_rule_refuted_as_modelled.
+Print Assumptions C13_C04_slots_visible.
+Print Assumptions C13_C04_fields_rule.
+Print Assumptions C13_C04_values_rule.
+Print Assumptions C13_C04_validate_eq.
+Print Assumptions C13_C04_validate_eq_no_gated_impls.
+Print Assumptions C13_C01_view_eq.
+Print Assumptions C13_C01_run_request_eq.
+Print Assumptions C13_C04_spread_rule_refuted_before_fix.
+Print Assumptions C13_C04_spread_rule_after_fix.
 Print Assumptions C13_erase_schema_ok.
 Print Assumptions C13_enabling_is_monotone.
 Print Assumptions C13_enabling_shows_everything.
